@@ -390,12 +390,18 @@ class FileSystemChain(FileSystem[File[FileSystem[Any]]]):
         """
         for sys, prefix in self.systems:
             full_folder = os.path.join(prefix, folder).replace('\\', '/')
+            # Filenames are case-insensitive and accept both slashes, so strip the subfolder that way.
+            # relpath() is case-sensitive on POSIX, and would produce "../Folder/file" for a prefix "folder".
+            strip = prefix.replace('\\', '/').strip('/')
+            if strip:
+                strip += '/'
             for file in sys.walk_folder(full_folder):
-                yield File(
-                    self,
-                    os.path.relpath(file.path, prefix).replace('\\', '/'),
-                    file,
-                )
+                path = file.path.replace('\\', '/')
+                if path[:len(strip)].casefold() == strip.casefold():
+                    path = path[len(strip):]
+                else:  # Unusual spelling of the prefix or path.
+                    path = os.path.relpath(path, prefix).replace('\\', '/')
+                yield File(self, path, file)
 
     def _get_cache_key(self, file: File[Self]) -> int:
         """Return the last modified time of this file.
